@@ -515,12 +515,22 @@ void ordered_free_memory_list::deallocate(void* ptr, std::size_t n) noexcept
         deallocate(ptr);
     else
     {
-        auto mem  = detail::debug_fill_free(ptr, n, 0);
         // the array occupies every node it overlaps, not only the full ones
-        auto prev = insert_impl(mem, (n + node_size_ - 1) / node_size_ * node_size_);
+        auto no_nodes = (n + node_size_ - 1) / node_size_;
+
+        auto p = find_pos(allocator_info(FOONATHAN_MEMORY_LOG_PREFIX
+                                         "::detail::ordered_free_memory_list",
+                                         this),
+                          static_cast<char*>(ptr), begin_node(), end_node(), last_dealloc_,
+                          last_dealloc_prev_);
+
+        // only memory that passed the double-free check is written to (it may hold links of the list otherwise)
+        auto mem = detail::debug_fill_free(ptr, n, 0);
+        xor_link_block(mem, node_size_, no_nodes, p.prev, p.next);
+        capacity_ += no_nodes;
 
         last_dealloc_      = static_cast<char*>(mem);
-        last_dealloc_prev_ = prev;
+        last_dealloc_prev_ = p.prev;
     }
 }
 
